@@ -299,6 +299,8 @@ def data_pre(S, d, rd):
 def state_pre(S, stage):
   P = [("tree_asleep satisfies the representation invariant (disjoint cycles over sleeping trees, countdowns in [-(1+mjMINAWAKE), -1])", inv(S.tree_asleep0))]
   P.append(("sleep policy is AUTO_NEVER or AUTO_ALLOWED (put_model rejects the user policies; AUTO is resolved by the compiler)", And(*[inrange(x, 1, 3) for x in S.tree_sleep_policy])))
+  if stage in ("sleep", "wake") and any(is_sym(x) for x in S.dof_length):
+    P.append(("dof_length > 0 (symbolic per dof: the velocity weight of dof j must be dof j's own)", And(*[cmp(">", x, 0.0) for x in S.dof_length])))
   if stage == "sleep":
     P.append(("sleep tolerance >= 0", cmp(">=", S.tol, 0.0)))
     P.append(("0 <= nisland <= ntree", inrange(S.nisland, 0, S.ntree + 1)))
@@ -337,8 +339,8 @@ def obligations(ctx, sess, hr, names, rp, tag=""):
 
 
 STAGE_SYM_MODEL = {
-  "sleep": ["tree_sleep_policy"],
-  "wake": ["tree_sleep_policy"],
+  "sleep": ["tree_sleep_policy", "dof_length"],
+  "wake": ["tree_sleep_policy", "dof_length"],
   "collision": ["body_treeid", "geom_bodyid"],
   "order": ["body_treeid", "geom_bodyid"],
   "tendon": ["body_treeid", "site_bodyid", "jnt_bodyid", "geom_bodyid", "tendon_limited"],
